@@ -75,7 +75,9 @@ def check_rot(acc, mr, a, th, ia, ith):
         if not (e <= TOL):
             acc.violation("logexp3", case, e, TOL, q, {"port_equals_reference": port_eq_ref})
     if 0 <= PI - ang_true < 3e-5 and not port_eq_ref:
-        acc.violation("band_port_vs_reference", case, float(np.abs(L - _ref().MatrixLog3(R)).max()), 1e-12, q)
+        # not a clause of C01: a port that differs from the reference next to pi (another, equally valid logarithm; a better
+        # half-turn branch) only loses the cover of the known finding - its round trips above are then judged unsuppressed
+        acc.outcome("band_port_differs_from_reference", 1)
 
 
 def check_twist(acc, mr, a, th, v):
